@@ -738,7 +738,7 @@ pub struct BitVectorIntoIter {
 
 impl ExactSizeIterator for BitVectorIntoIter {
     fn len(&self) -> usize {
-        self.bv.n_bits - self.i
+        self.bv.n_bits.saturating_sub(self.i)
     }
 }
 
